@@ -52,3 +52,8 @@ pub const VERSION: &str = env!("CARGO_PKG_VERSION");
 
 /// Default maximum size that gets buffered.
 pub const MAX_BUFFER_SIZE: usize = 1024 * 1024 * 1024;
+
+// verification hook (add-only, inert unless built by `cargo kani`, which sets --cfg kani)
+#[cfg(kani)]
+#[path = "/verif/kani/lib_harness.rs"]
+mod verif_kani;
